@@ -743,51 +743,88 @@ mod v_wire_views {
         }
     }
 
-    fn tcp_view<const N: usize>() {
+    // TCP: the option walk is done by four functions (selective_ack_permitted, selective_ack_ranges,
+    // options_summary, Repr::parse) over the same bytes; one harness each (four 13-fold unrolled option
+    // parsers in one query ran out of memory).  `sel` picks the function under test.
+    fn tcp_view<const N: usize>(sel: u8) {
         let bytes: [u8; N] = kani::any();
         let len = any_le(N);
         let b = &bytes[..len];
         let src = any_ip4();
         let dst = any_ip4();
-        if let Ok(p) = TcpPacket::new_checked(b) {
-            let _ = p.src_port();
-            let _ = p.dst_port();
-            let _ = p.seq_number();
-            let _ = p.ack_number();
-            let _ = p.fin();
-            let _ = p.syn();
-            let _ = p.rst();
-            let _ = p.psh();
-            let _ = p.ack();
-            let _ = p.urg();
-            let _ = p.ece();
-            let _ = p.cwr();
-            let _ = p.ns();
-            let _ = p.header_len();
-            let _ = p.window_len();
-            let _ = p.checksum();
-            let _ = p.urgent_at();
-            let _ = p.segment_len();
-            let _ = p.selective_ack_permitted();
-            let _ = p.selective_ack_ranges();
-            let _ = p.options_summary();
-            let _ = p.options();
+        if TcpPacket::new_checked(b).is_ok() {
+            // same value as the one inside the Ok (see icmpv6_view): keeps the buffer pointer unmerged
+            let p = TcpPacket::new_unchecked(b);
+            let opts = p.options();
             let pl = p.payload();
-            let r = TcpRepr::parse(&p, &src, &dst, &ChecksumCapabilities::ignored());
-            kani::cover!(matches!(&r, Ok(x) if x.max_seg_size.is_some() && x.window_scale.is_some() && x.payload.len() > 0), "tcp: parsed with MSS and window-scale options and payload");
-            kani::cover!(r.is_err() && p.src_port() != 0 && p.dst_port() != 0 && !p.fin() && !p.rst() && !p.syn(), "tcp: malformed option rejected");
+            match sel {
+                0 => {
+                    let _ = p.src_port();
+                    let _ = p.dst_port();
+                    let _ = p.seq_number();
+                    let _ = p.ack_number();
+                    let _ = p.fin();
+                    let _ = p.syn();
+                    let _ = p.rst();
+                    let _ = p.psh();
+                    let _ = p.ack();
+                    let _ = p.urg();
+                    let _ = p.ece();
+                    let _ = p.cwr();
+                    let _ = p.ns();
+                    let _ = p.header_len();
+                    let _ = p.window_len();
+                    let _ = p.checksum();
+                    let _ = p.urgent_at();
+                    let _ = p.segment_len();
+                    let r = TcpRepr::parse(&p, &src, &dst, &ChecksumCapabilities::ignored());
+                    kani::cover!(matches!(&r, Ok(x) if x.max_seg_size.is_some() && x.window_scale.is_some() && x.payload.len() > 0), "tcp: parsed with MSS and window-scale options and payload");
+                    kani::cover!(r.is_err() && p.src_port() != 0 && p.dst_port() != 0 && !p.fin() && !p.rst() && !p.syn(), "tcp: malformed option rejected");
+                }
+                1 => {
+                    let a = p.selective_ack_permitted();
+                    let r = p.selective_ack_ranges();
+                    kani::cover!(matches!(a, Ok(true)) && opts.len() >= 4, "tcp: SACK-permitted found behind other options");
+                    kani::cover!(matches!(r, Ok(x) if x[0].is_some()) && a.is_err(), "tcp: SACK block found, later option malformed");
+                }
+                _ => {
+                    let s = p.options_summary();
+                    kani::cover!(matches!(s, Ok(x) if x.timestamp.is_some()), "tcp: options summary with timestamp");
+                    kani::cover!(s.is_err(), "tcp: options summary rejects a malformed option");
+                }
+            }
         }
     }
-    // every option consumes >= 1 byte: <= N-20 iterations (+1) of each option loop
-    // @harness props=C07,C03 cfg=KW tier=q to=900 mem=6 unwind=14 opts=term covers=2 funcs=TcpPacket::new_checked;TcpPacket::options_summary;TcpPacket::selective_ack_ranges;TcpPacket::selective_ack_permitted;TcpOption::parse;TcpRepr::parse bounds=any_bytes_len_0..=32_(<=12_option_bytes)
+    // every option consumes >= 1 byte: <= N-20 iterations (+1) of the option loop
+    // @harness props=C07,C03 cfg=KW tier=q to=1200 mem=8 unwind=14 opts=term covers=2 funcs=TcpPacket::new_checked;TcpPacket::options;TcpPacket::payload;TcpPacket::segment_len;TcpOption::parse;TcpRepr::parse bounds=any_bytes_len_0..=32_(<=12_option_bytes)
     #[kani::proof]
     pub(crate) fn view_tcp() {
-        tcp_view::<32>();
+        tcp_view::<32>(0);
     }
-    // @harness props=C07,C03 cfg=KW tier=t to=3600 mem=12 unwind=42 opts=term covers=2 funcs=TcpPacket::new_checked;TcpPacket::options_summary;TcpPacket::selective_ack_ranges;TcpPacket::selective_ack_permitted;TcpOption::parse;TcpRepr::parse bounds=any_bytes_len_0..=64_(all_40_option_bytes)
+    // @harness props=C07,C03 cfg=KW tier=q to=1200 mem=8 unwind=14 opts=term covers=2 funcs=TcpPacket::selective_ack_permitted;TcpPacket::selective_ack_ranges;TcpOption::parse bounds=any_bytes_len_0..=32_(<=12_option_bytes)
+    #[kani::proof]
+    pub(crate) fn view_tcp_sack() {
+        tcp_view::<32>(1);
+    }
+    // @harness props=C07,C03 cfg=KW tier=q to=1200 mem=8 unwind=14 opts=term covers=2 funcs=TcpPacket::options_summary;TcpOption::parse bounds=any_bytes_len_0..=32_(<=12_option_bytes)
+    #[kani::proof]
+    pub(crate) fn view_tcp_options_summary() {
+        tcp_view::<32>(2);
+    }
+    // @harness props=C07,C03 cfg=KW tier=t to=3600 mem=16 unwind=42 opts=term covers=2 funcs=TcpPacket::new_checked;TcpPacket::options;TcpPacket::payload;TcpPacket::segment_len;TcpOption::parse;TcpRepr::parse bounds=any_bytes_len_0..=64_(all_40_option_bytes)
     #[kani::proof]
     pub(crate) fn view_tcp_t() {
-        tcp_view::<64>();
+        tcp_view::<64>(0);
+    }
+    // @harness props=C07,C03 cfg=KW tier=t to=3600 mem=16 unwind=42 opts=term covers=2 funcs=TcpPacket::selective_ack_permitted;TcpPacket::selective_ack_ranges;TcpOption::parse bounds=any_bytes_len_0..=64_(all_40_option_bytes)
+    #[kani::proof]
+    pub(crate) fn view_tcp_sack_t() {
+        tcp_view::<64>(1);
+    }
+    // @harness props=C07,C03 cfg=KW tier=t to=3600 mem=16 unwind=42 opts=term covers=2 funcs=TcpPacket::options_summary;TcpOption::parse bounds=any_bytes_len_0..=64_(all_40_option_bytes)
+    #[kani::proof]
+    pub(crate) fn view_tcp_options_summary_t() {
+        tcp_view::<64>(2);
     }
 
     fn tcp_option_view<const N: usize>() {
@@ -795,14 +832,11 @@ mod v_wire_views {
         let len = any_le(N);
         let b = &bytes[..len];
         let r = TcpOption::parse(b);
-        if let Ok((rest, _)) = &r {
-            // progress: the option loops of the callers terminate
-            assert!(rest.len() < len, "prop:c07_tcp_option_parse_consumes_at_least_one_byte");
-        }
         kani::cover!(matches!(r, Ok((_, TcpOption::SackRange(x))) if x[2].is_some()), "tcp option: three SACK blocks");
         kani::cover!(matches!(r, Ok((_, TcpOption::Unknown { data, .. })) if data.len() == 0), "tcp option: unknown kind, length 2");
+        kani::cover!(matches!(r, Ok((rest, _)) if rest.len() + 1 == len), "tcp option: one-byte option");
     }
-    // @harness props=C07,C03 cfg=KW tier=q to=600 mem=4 unwind=6 covers=2 funcs=TcpOption::parse bounds=any_bytes_len_0..=40
+    // @harness props=C07,C03 cfg=KW tier=q to=600 mem=4 unwind=6 covers=3 funcs=TcpOption::parse bounds=any_bytes_len_0..=40
     #[kani::proof]
     pub(crate) fn view_tcp_option() {
         tcp_option_view::<40>();
@@ -827,44 +861,64 @@ mod v_wire_views {
 
     // ------------------------------------------------------------------ DHCPv4
 
-    /// 240 fixed header bytes + T option bytes, all symbolic
-    fn dhcp_view<const L: usize>() {
+    /// 240 fixed header bytes + up to L-240 option bytes, all symbolic.  sel 0: accessors and the options
+    /// iterator, sel 1: DhcpRepr::parse (which runs the iterator itself)
+    fn dhcp_view<const L: usize>(sel: u8) {
         let bytes: [u8; L] = kani::any();
         let len = any_le(L);
         let b = &bytes[..len];
-        if let Ok(p) = DhcpPacket::new_checked(b) {
-            let _ = p.opcode();
-            let _ = p.hardware_type();
-            let _ = p.hardware_len();
-            let _ = p.transaction_id();
-            let _ = p.client_hardware_address();
-            let _ = p.hops();
-            let _ = p.secs();
-            let _ = p.magic_number();
-            let _ = p.client_ip();
-            let _ = p.your_ip();
-            let _ = p.server_ip();
-            let _ = p.relay_agent_ip();
-            let _ = p.flags();
-            let mut n = 0usize;
-            for o in p.options() {
-                n += 1;
+        if DhcpPacket::new_checked(b).is_ok() {
+            // same value as the one inside the Ok (see icmpv6_view)
+            let p = DhcpPacket::new_unchecked(b);
+            if sel == 0 {
+                let _ = p.opcode();
+                let _ = p.hardware_type();
+                let _ = p.hardware_len();
+                let _ = p.transaction_id();
+                let _ = p.client_hardware_address();
+                let _ = p.hops();
+                let _ = p.secs();
+                let _ = p.magic_number();
+                let _ = p.client_ip();
+                let _ = p.your_ip();
+                let _ = p.server_ip();
+                let _ = p.relay_agent_ip();
+                let _ = p.flags();
+                let mut n = 0usize;
+                let mut last = 0usize;
+                for o in p.options() {
+                    n += 1;
+                    last = o.data.len();
+                }
+                kani::cover!(n >= 3, "dhcp: three or more options iterated");
+                kani::cover!(n == 1 && last + 2 == L - 240, "dhcp: one option filling the buffer");
+            } else {
+                let r = DhcpRepr::parse(&p);
+                kani::cover!(matches!(&r, Ok(x) if x.dns_servers.is_some()), "dhcp: parsed with a DNS-server option");
+                kani::cover!(matches!(&r, Ok(x) if x.lease_duration.is_some()), "dhcp: parsed with a lease-time option");
             }
-            let r = DhcpRepr::parse(&p);
-            kani::cover!(n >= 3, "dhcp: three or more options iterated");
-            kani::cover!(matches!(&r, Ok(x) if x.dns_servers.is_some() && x.lease_duration.is_some()), "dhcp: parsed with DNS-server and lease-time options");
         }
     }
     // option walker: every step consumes >= 1 byte (pad) or >= 2 (option): <= T+1 iterations
-    // @harness props=C07,C03 cfg=KW tier=q to=900 mem=8 unwind=18 opts=term covers=2 funcs=DhcpPacket::new_checked;DhcpPacket::options;DhcpRepr::parse bounds=any_bytes_len_0..=256_(240_header_+_<=16_option_bytes)
+    // @harness props=C07,C03 cfg=KW tier=q to=1200 mem=8 unwind=12 opts=term covers=2 funcs=DhcpPacket::new_checked;DhcpPacket::options;DhcpPacket::client_hardware_address;DhcpPacket::flags bounds=any_bytes_len_0..=250_(240_header_+_<=10_option_bytes)
     #[kani::proof]
     pub(crate) fn view_dhcp() {
-        dhcp_view::<256>();
+        dhcp_view::<250>(0);
     }
-    // @harness props=C07,C03 cfg=KW tier=t to=3600 mem=12 unwind=34 opts=term covers=2 funcs=DhcpPacket::new_checked;DhcpPacket::options;DhcpRepr::parse bounds=any_bytes_len_0..=272_(240_header_+_<=32_option_bytes)
+    // @harness props=C07,C03 cfg=KW tier=q to=1200 mem=8 unwind=12 opts=term covers=2 funcs=DhcpRepr::parse;DhcpPacket::options bounds=any_bytes_len_0..=250_(240_header_+_<=10_option_bytes)
+    #[kani::proof]
+    pub(crate) fn view_dhcp_repr() {
+        dhcp_view::<250>(1);
+    }
+    // @harness props=C07,C03 cfg=KW tier=t to=3600 mem=16 unwind=26 opts=term covers=2 funcs=DhcpPacket::new_checked;DhcpPacket::options;DhcpPacket::client_hardware_address;DhcpPacket::flags bounds=any_bytes_len_0..=264_(240_header_+_<=24_option_bytes)
     #[kani::proof]
     pub(crate) fn view_dhcp_t() {
-        dhcp_view::<272>();
+        dhcp_view::<264>(0);
+    }
+    // @harness props=C07,C03 cfg=KW tier=t to=3600 mem=16 unwind=26 opts=term covers=2 funcs=DhcpRepr::parse;DhcpPacket::options bounds=any_bytes_len_0..=264_(240_header_+_<=24_option_bytes)
+    #[kani::proof]
+    pub(crate) fn view_dhcp_repr_t() {
+        dhcp_view::<264>(1);
     }
     // sname / boot-file strings: K leading bytes of each field symbolic, the remainder zero
     // @harness props=C07 cfg=KW tier=q to=900 mem=8 unwind=130 covers=2 funcs=DhcpPacket::get_sname;DhcpPacket::get_boot_file bounds=240-byte_packet;_first_6_bytes_of_sname_and_of_file_symbolic;_rest_zero
@@ -890,11 +944,16 @@ mod v_wire_views {
 
     // ------------------------------------------------------------------ DNS
 
+    /// header accessors, then what socket::dns does with a response: one question, then answer records
     fn dns_view<const N: usize>() {
+        // a record is >= 11 bytes, the question >= 5: no more than R records fit
+        let r_max: usize = (N - 12 - 5) / 11;
         let bytes: [u8; N] = kani::any();
         let len = any_le(N);
         let b = &bytes[..len];
-        if let Ok(p) = DnsPacket::new_checked(b) {
+        if DnsPacket::new_checked(b).is_ok() {
+            // same value as the one inside the Ok (see icmpv6_view)
+            let p = DnsPacket::new_unchecked(b);
             let _ = p.transaction_id();
             let _ = p.flags();
             let _ = p.opcode();
@@ -902,45 +961,51 @@ mod v_wire_views {
             let _ = p.question_count();
             let _ = p.authority_record_count();
             let _ = p.additional_record_count();
-            let an = p.answer_record_count();
+            let an = p.answer_record_count() as usize;
             let payload = p.payload();
-            // what socket::dns does with a response: one question, then the answer records
             let mut answers = 0usize;
             let mut q_ok = false;
+            let mut a_ok = false;
             if let Ok((mut rest, q)) = DnsQuestion::parse(payload) {
                 q_ok = true;
-                for _ in 0..an {
+                let mut i = 0;
+                // the record loop of socket::dns; `i <= r_max` only stops symbolic execution where the
+                // bytes are used up anyway (iteration r_max+1 necessarily fails)
+                while i < an && i <= r_max {
                     match DnsRecord::parse(rest) {
-                        Ok((r2, _rec)) => {
+                        Ok((r2, rec)) => {
                             rest = r2;
                             answers += 1;
+                            a_ok = a_ok || matches!(rec.data, DnsRecordData::A(_));
                         }
                         Err(_) => break,
                     }
+                    i += 1;
                 }
             }
-            let _ = DnsRecord::parse(payload);
-            kani::cover!(q_ok && answers >= 1, "dns: question and an answer record parsed");
+            kani::cover!(q_ok && a_ok, "dns: question and an A record parsed");
             kani::cover!(q_ok && an > 0 && answers == 0, "dns: truncated answer rejected");
         }
     }
-    // name walker: >= 1 byte per label; a record is >= 11 bytes
-    // @harness props=C07,C03 cfg=KW tier=q to=900 mem=6 unwind=22 opts=term covers=2 funcs=DnsPacket::new_checked;DnsPacket::payload;DnsQuestion::parse;DnsRecord::parse bounds=any_bytes_len_0..=32_(12_header_+_<=20)
+    // name walker: >= 1 byte per step: <= N-12 iterations (+1)
+    // @harness props=C07,C03 cfg=KW tier=q to=1200 mem=8 unwind=22 opts=term covers=2 funcs=DnsPacket::new_checked;DnsPacket::payload;DnsQuestion::parse;DnsRecord::parse;DnsRecordData::parse bounds=any_bytes_len_0..=32_(12_header_+_<=20;_question_+_<=1_record)
     #[kani::proof]
     pub(crate) fn view_dns() {
         dns_view::<32>();
     }
-    // @harness props=C07,C03 cfg=KW tier=t to=3600 mem=12 unwind=38 opts=term covers=2 funcs=DnsPacket::new_checked;DnsPacket::payload;DnsQuestion::parse;DnsRecord::parse bounds=any_bytes_len_0..=48_(12_header_+_<=36)
+    // @harness props=C07,C03 cfg=KW tier=t to=3600 mem=16 unwind=42 opts=term covers=2 funcs=DnsPacket::new_checked;DnsPacket::payload;DnsQuestion::parse;DnsRecord::parse;DnsRecordData::parse bounds=any_bytes_len_0..=52_(12_header_+_<=40;_question_+_<=3_records)
     #[kani::proof]
     pub(crate) fn view_dns_t() {
-        dns_view::<48>();
+        dns_view::<52>();
     }
 
     fn dns_name_view<const N: usize>() {
         let bytes: [u8; N] = kani::any();
         let len = any_le(N);
         let b = &bytes[..len];
-        if let Ok(p) = DnsPacket::new_checked(b) {
+        if DnsPacket::new_checked(b).is_ok() {
+            // same value as the one inside the Ok (see icmpv6_view)
+            let p = DnsPacket::new_unchecked(b);
             // `bytes` = any suffix of the packet (a name field of a question/record, as in socket::dns)
             let off = any_le(N);
             kani::assume(off <= len);
@@ -954,21 +1019,21 @@ mod v_wire_views {
                 }
                 labels += 1;
             }
-            kani::cover!(labels >= 3 && !err, "dns name: three labels, terminated");
-            kani::cover!(err && labels >= 1 && b[off] >= 0xc0, "dns name: pointer followed, then malformed");
+            kani::cover!(labels >= 2 && !err, "dns name: two labels, terminated");
+            kani::cover!(err && off + 1 < len && b[off] == 0xc0 && b[off + 1] as usize == off, "dns name: pointer to itself rejected");
         }
     }
     // each pointer jump strictly shrinks the readable prefix and the label segments are disjoint:
     // <= N labels overall and <= N/2+1 jumps inside one next()
-    // @harness props=C07,C03 cfg=KW tier=q to=900 mem=8 unwind=22 opts=term covers=2 funcs=DnsPacket::parse_name bounds=any_bytes_len_0..=20;_name_starting_at_any_offset;_self-referential_pointers_included
+    // @harness props=C07,C03 cfg=KW tier=q to=1200 mem=8 unwind=18 opts=term covers=2 funcs=DnsPacket::parse_name bounds=any_bytes_len_0..=16;_name_starting_at_any_offset;_self-referential_pointers_included
     #[kani::proof]
     pub(crate) fn view_dns_name() {
-        dns_name_view::<20>();
+        dns_name_view::<16>();
     }
-    // @harness props=C07,C03 cfg=KW tier=t to=3600 mem=12 unwind=34 opts=term covers=2 funcs=DnsPacket::parse_name bounds=any_bytes_len_0..=32;_name_starting_at_any_offset;_self-referential_pointers_included
+    // @harness props=C07,C03 cfg=KW tier=t to=3600 mem=16 unwind=26 opts=term covers=2 funcs=DnsPacket::parse_name bounds=any_bytes_len_0..=24;_name_starting_at_any_offset;_self-referential_pointers_included
     #[kani::proof]
     pub(crate) fn view_dns_name_t() {
-        dns_name_view::<32>();
+        dns_name_view::<24>();
     }
 
     // ------------------------------------------------------------------ IEEE 802.15.4
